@@ -370,3 +370,7 @@ if __name__ == '__main__':
     e = pytrans_schema.generate(repo, os.path.join(here, 'coq', 'Gen', 'SchemaGen.v'))
     if e:
         sys.stderr.write('pytrans_schema: translator refused: %s\n' % e)
+    import pytrans_uow
+    e = pytrans_uow.generate(repo, os.path.join(here, 'coq', 'Gen', 'UowGen.v'))
+    if e:
+        sys.stderr.write('pytrans_uow: translator refused: %s\n' % e)
